@@ -514,12 +514,13 @@ def _ascii_proved(f, pv, cfg, recv_op, use_bb):
     return False
 
 
-def _byte_lengths(ck, p):
+def _byte_lengths(ck, p, scope=None, what_scope="front-end", floor=8):
     rule = "R-C04-units"
+    scope = scope or FRONT
     n_fns = n_sinks = n_src = 0
     bad = []
     for f in sorted(p.fns.values(), key=lambda f: f.name):
-        if not FRONT.match(f.name) or f.get("kind") == "Promoted":
+        if not scope.match(f.name) or f.get("kind") == "Promoted":
             continue
         if f.name.startswith("harper_core::parsers::markdown::"):
             continue            # decided by the dedicated Markdown rule above (byte ranges, lock-step cursors)
@@ -604,7 +605,7 @@ def _byte_lengths(ck, p):
         for bi, t in f.calls():
             if BYTE_SRC.search(norm(inst_of(t) or def_of(t) or "")):
                 n_src += 1
-    ck.floor(rule, "front-end functions with char-indexed sinks", n_fns, 8)
+    ck.floor(rule, "%s functions with char-indexed sinks" % what_scope, n_fns, floor)
     ck.extra["byte_length_sinks"] = n_sinks
     ck.extra["byte_length_sources_seen"] = n_src
     seen_k = set()
@@ -614,7 +615,7 @@ def _byte_lengths(ck, p):
         seen_k.add(fn)
         ck.refuted(rule, "bytes-as-chars:%s" % fn, where, "a byte quantity of a str/String (%s) reaches a char-indexed sink (%s) without chars().count(): every non-ASCII character before it displaces the span (and can push it past the end of the text)" % (src, what))
     if not bad:
-        ck.proved(rule, "bytes-as-chars", "", "%d char-indexed sinks in %d front-end functions; none receives a str/String byte length or byte position (%d such sources exist in those crates, all converted or unrelated)" % (n_sinks, n_fns, n_src))
+        ck.proved(rule, "bytes-as-chars", "", ("%d char-indexed sinks in %d " + what_scope + " functions; none receives a str/String byte length or byte position (%d such sources exist in those functions, all converted or unrelated)") % (n_sinks, n_fns, n_src))
 
 
 def _typst_verbatim(ck, p):
